@@ -227,6 +227,17 @@ def audit(pid: str):
     return res
 
 
+def leanchecker(ctx, pid):
+    """thorough tier: re-check the compiled theorem module (and what it imports from this project) with Lean's
+    independent .olean re-checker"""
+    t0 = time.time()
+    mods = [f[:-5].replace('/', '.') for f in import_closure(pid) if f.startswith('PyGam/Props/') or f.startswith('PyGam/Proofs/')]
+    rc, out, err = _run(['lake', 'env', 'leanchecker'] + mods, cwd=LEAN_DIR, timeout=3000)
+    ctx.extra['leanchecker'] = dict(modules=mods, rc=rc, seconds=round(time.time() - t0, 1), tail=(out + err)[-400:])
+    if rc != 0:
+        ctx.broken.append(dict(kind='leanchecker', modules=mods, log=(out + err)[-2000:]))
+
+
 class Driver:
     """Batch client of the Lean model driver.  `run(lines)` returns one output line per input line."""
 
